@@ -280,7 +280,10 @@ class _Real:
                 pre = () if self.last_self is None else (self.last_self,)
                 self.cached.cache_discard(*pre, *args, **kw)
                 return ["done"]
-            r = self.handle(inst).cache_discard(*args, **kw)
+            try:
+                r = self.handle(inst).cache_discard(*args, **kw)
+            except Exception as e:
+                return ["exc", "discard-raised", type(e).__name__]
             return ["done"] if r is None else ["exc", "returned", repr(r)]
         if tag == "info":
             i = self.handle().cache_info()
